@@ -8,7 +8,7 @@ import os
 
 from hypothesis import strategies as st
 
-from vlib import faults, fsgen, pathspell, srvsim, vloop
+from vlib import certs, faults, fsgen, pathspell, srvsim, vloop
 from vlib.core import Lane, b2s, ok, s2b, viol
 from vlib.faketransport import FakeTransport
 from vlib.nlog import setup_logging
@@ -115,6 +115,7 @@ def case_st(draw, with_fault=True):
                      "errno": draw(st.sampled_from(["EIO", "ENOSPC", "EACCES", "EROFS"]))}
     return {"tree": spec, "cfg": cfg, "req": draw(request_st(spec)), "fault": fault,
             "through": draw(st.sampled_from(["handler", "handler", "protocol"])),
+            "ccert": draw(st.sampled_from([None, None, None, "ec-a", "ed-a"])),
             # protocol path only: a middleware chain in front of the upload handler and its verdict
             "chain": draw(st.sampled_from([None, None, "allow", "deny", "deny-none", "raise"]))}
 
@@ -176,6 +177,9 @@ def run_case(case: dict):
         if len(line.encode()) + 2 > 1024:
             return ok(rejected_line=True)
         treq.content = content
+        if case.get("ccert"):
+            # the client also presented a (self-made) certificate; who holds a certificate does not thereby hold a token
+            treq.client_cert_fingerprint = certs.get(case["ccert"]).fingerprint
         before = fsgen.snapshot(S)
         status = None
         raised = None
@@ -189,7 +193,7 @@ def run_case(case: dict):
                 async def scenario(loop):
                     sim = srvsim.Sim(loop)
                     h = srvsim.build_handler(sim, {"kind": "value", "status": 20, "meta": "text/gemini", "body": "x"})
-                    tr = FakeTransport(loop)
+                    tr = FakeTransport(loop, peer_der=certs.get(case["ccert"]).der if case.get("ccert") else None)
                     chain = None
                     if case.get("chain"):
                         spec_ = {"allow": {"kind": "allow"}, "deny": {"kind": "deny", "response": "53 Access denied\r\n"},
@@ -441,7 +445,9 @@ def enum_preconditions(tier):
                                     {"p": ROOT + "/a.gmi~", "t": "file", "c": "text"}, {"p": ROOT + "/a.gmi.bak", "t": "file", "c": "text"},
                                     {"p": ROOT + "/a.gmi.part", "t": "file", "c": "text"}, {"p": ROOT + "/sub", "t": "dir"}]}
     for tokens in ("none", "one", "several"):
-        for tok in (None, "tok-1", "wrong"):
+        for tok, ccert in ((None, None), ("tok-1", None), ("wrong", None), ("", None), (None, "ec-a"), ("", "ec-a"), ("wrong", "ec-a")):
+            if ccert and tokens == "none":
+                continue
             for types in (None, ["text/gemini", "text/plain"]):
                 for mime in (None, "text/plain", "image/png", "", " "):
                     for delete in (True, False):
@@ -450,7 +456,7 @@ def enum_preconditions(tier):
                                 for through in ("handler", "protocol"):
                                     cfg = {"tokens": tokens, "max_size": 64, "types": types, "delete": delete, "via": "object"}
                                     content = bytes((i * 13 + 5) & 0xFF for i in range(n))
-                                    yield {"tree": spec, "cfg": cfg, "through": through, "fault": None,
+                                    yield {"tree": spec, "cfg": cfg, "through": through, "fault": None, "ccert": ccert,
                                            "req": {"path": path, "size": n, "content": b2s(content), "token": tok, "mime": mime,
                                                    "labels": ["plain"]}}
 
